@@ -29,8 +29,20 @@ pub fn iso3_from_param(p: &T3Storage) -> Iso3 {
 
 pub fn param_from_iso3(t: &Iso3) -> T3Storage {
     let v = t.translation.vector;
-    let e = t.rotation.euler_angles();
-    T3Storage::new(v.x, v.y, v.z, e.0, e.1, e.2)
+    let m = t.rotation.to_rotation_matrix();
+
+    // Roll, pitch and yaw of R = Rz(yaw) * Ry(pitch) * Rx(roll). Close to gimbal lock roll and yaw
+    // are individually ill-conditioned, so yaw is taken from the combination of entries which
+    // stays well conditioned (roll - yaw for pitch up, roll + yaw for pitch down)
+    let pitch = (-m[(2, 0)]).atan2(m[(2, 1)].hypot(m[(2, 2)]));
+    let roll = m[(2, 1)].atan2(m[(2, 2)]);
+    let yaw = if -m[(2, 0)] >= 0.0 {
+        roll - (m[(0, 1)] - m[(1, 2)]).atan2(m[(0, 2)] + m[(1, 1)])
+    } else {
+        (-(m[(0, 1)] + m[(1, 2)])).atan2(m[(1, 1)] - m[(0, 2)]) - roll
+    };
+
+    T3Storage::new(v.x, v.y, v.z, roll, pitch, yaw)
 }
 
 pub fn distance_weight(d: f64, threshold: f64) -> f64 {
